@@ -519,8 +519,9 @@ def jobs(tier):
         for h in range(0, min(n, 3) + 1):
             J.append(Completions(n, h))
     J.append(InputTable())
-    from harness import c19_api
+    from harness import c19_api, c19_rl
     J += c19_api.jobs(tier)
+    J += c19_rl.jobs(tier)
     return J
 
 
